@@ -3,11 +3,12 @@
 (* weighting pattern): the weights are laid out per amino acid by codon     *)
 (* rank (TCAG order) from boundary patterns - 1:9 (exactly 10 %: excluded), *)
 (* 1:10, 11:89 (11 %: included), a zero-weight codon, 10:30:60, an amino    *)
-(* acid whose synonyms all have weight 0.  Emitted per state: the weights,  *)
+(* acid (or the stop signal) whose synonyms all have weight 0; code 27 has  *)
+(* no stop signal among its letters at all.  Emitted per state: the weights, *)
 (* and per amino-acid letter the eligible codon set (empty = unencodable).  *)
 EXTENDS CodonTables, Sequences, SequencesExt, Json, CSV, IOUtils
 CONSTANTS Ids07
-Pats == {"ones", "p1_9", "p1_10", "p11_89", "zero1", "p10_30_60", "deadF", "p9_1", "p21_179", "p101_899"}
+Pats == {"ones", "p1_9", "p1_10", "p11_89", "zero1", "p10_30_60", "deadF", "p9_1", "p21_179", "p101_899", "deadStop"}
 CodonSeq == [k \in 1..64 |-> B4[((k - 1) \div 16) + 1] \o B4[(((k - 1) \div 4) % 4) + 1] \o B4[((k - 1) % 4) + 1]]
 Idx == [c \in Codons |-> CHOOSE k \in 1..64 : CodonSeq[k] = c]
 Rank(id, c) == Cardinality({d \in CodonsOf(id, Code[id][c]) : Idx[d] < Idx[c]})
@@ -23,6 +24,7 @@ PatW(p, id, c) ==
       [] p = "zero1"     -> IF r = 0 THEN 0 ELSE 5
       [] p = "p10_30_60" -> IF r = 0 THEN 10 ELSE IF r = 1 THEN 30 ELSE 60
       [] p = "deadF"     -> IF Code[id][c] \in {"F", "W"} THEN 0 ELSE 3
+      [] p = "deadStop"  -> IF Code[id][c] = "*" THEN 0 ELSE 2      \* a table re-weighted from a gene without its stop codon
 VARIABLES id, pat, w
 vars == <<id, pat, w>>
 Init == id = 0 /\ pat = "" /\ w = Zeros
